@@ -250,6 +250,9 @@ def types_oracle(c, r):
                 if k == "is_union" and "nil pointer" in (o.get("panic") or ""):
                     # only a type that leads, through a typedef of an include, to an include this file lacks
                     sig = {"class": "is_union_nil_on_transitive_include"}
+                if k == "go_enum" and "not a valid thrift type" in (o.get("panic") or ""):
+                    # theorem c11_classification_total_refuted: a name of an include's include resolved here
+                    sig = {"class": "go_enum_panic_on_far_name"}
                 out.append(("%s(%s) on a validated program: %s" % (k, unhex_ty(q["ty"]), o.get("panic") or "hang"), sig))
     return out
 
@@ -536,7 +539,8 @@ def check_go(lab_root, ids):
 
 # -- known generator defects that the default generator avoids and a few probe programs exercise
 
-PROBES = ["typedef_struct", "allcaps_type", "new_prefix_type", "service_name_shape", "allcaps_throws", "transitive"]
+PROBES = ["typedef_struct", "allcaps_type", "new_prefix_type", "service_name_shape", "allcaps_throws", "transitive",
+          "far_same_name"]
 KNOWN_CLASS = {
     # probe feature -> (target, stage, regex every error line must match, class)
     "probe:typedef_struct": ("go", "wellformed",
@@ -557,7 +561,7 @@ KNOWN_CLASS = {
 
 def known_signature(target, stage, lines, features):
     lang = target.split(":")[0]
-    if "probe:transitive" in features:
+    if "probe:transitive" in features or "probe:far_same_name" in features:
         # typedef of an include that leads into an include the root does not include: the result
         # cannot be named in the root's scope (see F15); every target is affected in its own way
         return {"class": "typedef_through_transitive_include", "target": lang}
@@ -575,6 +579,7 @@ def explore_valid(ctx, programs, workdir, lab_root):
         d = os.path.join(workdir, "v%d" % pi)
         os.makedirs(d)
         for fn, txt in p["files"].items():
+            os.makedirs(os.path.dirname(os.path.join(d, fn)), exist_ok=True)
             with open(os.path.join(d, fn), "w") as fh:
                 fh.write(txt)
         p["dir"] = d
@@ -594,6 +599,9 @@ def explore_valid(ctx, programs, workdir, lab_root):
         j.update(r)
     # well-formedness
     ok = [j for j in jobs if j["rc"] == 0]
+    for j in jobs:
+        if j["rc"] != 0 and j["target"] == "go":
+            shutil.rmtree(j["outdir"], ignore_errors=True)   # partial output would break the build of the others
     go_res = check_go(lab_root, [j["pid"] for j in ok if j["target"] == "go"])
     java_res = check_java([j["outdir"] for j in ok if j["target"] == "java"])
     for j in ok:
@@ -621,6 +629,7 @@ def explore_invalid(ctx, texts, workdir):
         d = os.path.join(workdir, "i%d" % i)
         os.makedirs(d)
         for fn, data in t["files"].items():
+            os.makedirs(os.path.dirname(os.path.join(d, fn)), exist_ok=True)
             with open(os.path.join(d, fn), "wb") as fh:
                 fh.write(data if isinstance(data, bytes) else data.encode("utf8"))
         target = rng.choice(TARGETS)
@@ -650,7 +659,7 @@ def printable(files):
 def run(ctx, br):
     quick = ctx.tier == "quick"
     rng = ctx.rng
-    n_casing, n_gen, n_tdprog, n_valid, n_mut, n_arb = (540, 140, 60, 10, 70, 40) if quick else (9000, 2500, 900, 110, 900, 500)
+    n_casing, n_gen, n_tdprog, n_valid, n_mut, n_arb = (1500, 400, 150, 24, 200, 100) if quick else (12000, 3000, 1200, 150, 1500, 700)
     cov = {}
     viol = 0
 
@@ -669,6 +678,10 @@ def run(ctx, br):
     for name, txt in G.SEMANTIC_INVALID:
         tcases.append({"kind": "types", "files": {"root.frugal": txt, "other.frugal": "struct O {}\n"}, "main": "root.frugal",
                        "features": ["semantic:" + name]})
+    for pr in ("transitive", "far_same_name"):   # witnesses of the _refuted theorems, replayed on the real code
+        snippet, extra = G.PROBE_SNIPPETS[pr]
+        tcases.append({"kind": "types", "files": dict(extra, **{"root.frugal": snippet}), "main": "root.frugal",
+                       "features": ["witness:" + pr]})
     tdir = os.path.join(ctx.rundir, "types")
     for i, p in enumerate(tcases):
         p["req"] = {"op": "types", "dir": os.path.join(tdir, str(i)), "files": p["files"], "main": p["main"]}
